@@ -3,7 +3,7 @@
    SigSafe.v, SigConn.v; Print Assumptions follows each. *)
 From Coq Require Import List NArith Bool.
 Import ListNotations.
-Require Import Util SigCore SigLemmas SigInv SigSafe SigSpec SigConn SigQuiesce SigWatch.
+Require Import Util SigCore SigLemmas SigInv SigSafe SigSpec SigConn SigQuiesce SigWatch SigShared.
 Local Open Scope N_scope.
 
 Theorem C04_connected_tells_the_truth : S_conn_query_truth.
@@ -35,3 +35,14 @@ Print Assumptions C04_every_operation_memory_safe.
 Theorem C04_watch_lists_exact : S_watch_exact.
 Proof. exact watch_exact_reachable. Qed.
 Print Assumptions C04_watch_lists_exact.
+
+(* a sigc::connection object co-owned (std::shared_ptr) by functor copies - the one-shot idiom, a handler
+   holding its own connection - lives until the program has released it and the last owning functor copy
+   is gone, even when that copy sits in the very slot the connection points to *)
+Theorem C04_connection_object_owned_by_functors_lifetime : S_shared_connection_lifetime_history.
+Proof. exact shared_connection_lifetime_history. Qed.
+Print Assumptions C04_connection_object_owned_by_functors_lifetime.
+
+Theorem C04_no_unowned_connection_object_between_operations : S_no_orphan_connection_at_rest.
+Proof. exact no_orphan_connection_at_rest. Qed.
+Print Assumptions C04_no_unowned_connection_object_between_operations.
